@@ -79,6 +79,14 @@ const EXTRA: &[&str] = &[
     "http://xml.juniper.net/netconf/junos/1.0",
     "urn:ietf:params:xml:ns:yang:ietf-inet-types?module=ietf-inet-types&revision=2013-07-15",
     "http://example.com/cap?a=1&b=2",
+    // mixed-case URIs are what they are: reported as sent, distinct from their lower-case twins,
+    // and a look-alike of a base capability is not that capability
+    "http://cisco.com/ns/yang/Cisco-IOS-XR-ifmgr-cfg?module=Cisco-IOS-XR-ifmgr-cfg&revision=2015-07-30",
+    "http://example.com/ns/Acme-System",
+    "http://example.com/ns/acme-system",
+    "urn:ietf:params:netconf:BASE:1.0",
+    "urn:ietf:params:netconf:Base:1.1",
+    "urn:ietf:params:netconf:capability:Candidate:1.0",
 ];
 
 /// session-id text: the fixed forms, or a number around the 32- and 64-bit boundaries (a value
